@@ -278,3 +278,15 @@ func VerifTableSQL(by []int, fromEnd bool) (string, error) {
 	}
 	return q.body, nil
 }
+
+// VerifLess calls the real queryTableRows.Less on two rows that carry the given row markers.
+func VerifLess(a, b RowMarker) bool {
+	s := queryTableRows{{Time: a.Time, rowRepr: a}, {Time: b.Time, rowRepr: b}}
+	return s.Less(0, 1)
+}
+
+// VerifLessThan calls the real lessThan (row marker against a storage row) the way inRange does.
+func VerifLessThan(m RowMarker, r VerifRow, orEq, fromEnd bool) bool {
+	row := verifToRow(r)
+	return lessThan(m, row, row.tsTags.stag[format.StringTopTagIndexV3], orEq, fromEnd)
+}
